@@ -1341,6 +1341,63 @@ it3
 //@end
 }
 
+//@fn file=src/algebra/matrix_traits.rs name=hvcat_dim_check rules=R3,tparam:MAT>CscF ret=r
+//@contract
+    ensures
+        // C16: block grids with inconsistent shapes are rejected, consistent ones accepted
+        r is Ok <==> grid_ok(mats@),
+//@iter 1
+it0
+//@loop 1
+        invariant
+            mats@.len() >= 1, mats@[0]@.len() >= 1, len0 == mats@[0]@.len(),
+            it0.seq().len() == mats@.len() - 1, (forall|q: int| 0 <= q < it0.seq().len() ==> *(#[trigger] it0.seq()[q]) == mats@[q + 1]),
+            forall|q: int| 1 <= q < it0.index@ + 1 ==> (#[trigger] mats@[q])@.len() == len0,
+//@before "return Err(MatrixConcatenationError::IncompatibleDimension);" #2
+            proof { assert(mats@[it0.index@ + 1]@.len() != mats@[0]@.len()); }
+//@iter 2
+it1
+//@loop 2
+        invariant
+            mats@.len() >= 1, mats@[0]@.len() >= 1, forall|q: int| 0 <= q < mats@.len() ==> (#[trigger] mats@[q])@.len() == mats@[0]@.len(),
+            it1.seq().len() == mats@.len(), (forall|q: int| 0 <= q < it1.seq().len() ==> *(#[trigger] it1.seq()[q]) == mats@[q]),
+            forall|q: int, p: int| 0 <= q < it1.index@ && 0 <= p < mats@[0]@.len() ==> (#[trigger] mats@[q]@[p]).m == mats@[q]@[0].m,
+//@body_start 2
+        let ghost gq = it1.index@ as int;
+//@iter 3
+it2
+//@loop 3
+            invariant
+                blockrow@ == mats@[gq]@, blockrow@.len() >= 1, rows == blockrow@[0].m, 0 <= gq < mats@.len(),
+                forall|q: int| 0 <= q < mats@.len() ==> (#[trigger] mats@[q])@.len() == mats@[0]@.len(),
+                it2.seq().len() == blockrow@.len() - 1, (forall|p: int| 0 <= p < it2.seq().len() ==> *(#[trigger] it2.seq()[p]) == blockrow@[p + 1]),
+                forall|p: int| 1 <= p < it2.index@ + 1 ==> (#[trigger] blockrow@[p]).m == rows,
+//@before "return Err(MatrixConcatenationError::IncompatibleDimension);" #3
+                proof { assert(mats@[gq]@[it2.index@ + 1].m != mats@[gq]@[0].m); }
+//@before_loop 4
+    proof { assert(mats@[0]@.len() == mats[0].len()); }
+//@iter 4
+it3
+//@loop 4
+        invariant
+            mats@.len() >= 1, mats@[0]@.len() >= 1, forall|q: int| 0 <= q < mats@.len() ==> (#[trigger] mats@[q])@.len() == mats@[0]@.len(),
+            forall|q: int, p: int| 0 <= q < mats@.len() && 0 <= p < mats@[0]@.len() ==> (#[trigger] mats@[q]@[p]).m == mats@[q]@[0].m,
+            it3.seq().len() == mats@[0]@.len(), (forall|p: int| 0 <= p < it3.seq().len() ==> *(#[trigger] it3.seq()[p]) == mats@[0]@[p]), blockcol_ctr == it3.index@,
+            mats@[0]@.len() <= usize::MAX,
+            forall|q: int, p: int| 0 <= q < mats@.len() && 0 <= p < it3.index@ ==> (#[trigger] mats@[q]@[p]).n == mats@[0]@[p].n,
+//@body_start 4
+        let ghost gp = it3.index@ as int;
+//@iter 5
+it4
+//@loop 5
+            invariant
+                0 <= gp < mats@[0]@.len(), blockcol == gp, cols == mats@[0]@[gp].n, forall|q: int| 0 <= q < mats@.len() ==> (#[trigger] mats@[q])@.len() == mats@[0]@.len(),
+                it4.seq().len() == mats@.len() - 1, (forall|q: int| 0 <= q < it4.seq().len() ==> *(#[trigger] it4.seq()[q]) == mats@[q + 1]),
+                forall|q: int| 1 <= q < it4.index@ + 1 ==> (#[trigger] mats@[q]@[gp]).n == cols,
+//@before "return Err(MatrixConcatenationError::IncompatibleDimension);" #4
+                proof { assert(mats@[it4.index@ + 1]@[gp].n != mats@[0]@[gp].n); }
+//@end
+
 // ---- KKT assembly, upper-triangle layout: the three fills that place P, its missing diagonal entries and A' ----
 pub open spec fn pcnt(P: CscMatrix<F>, c: int) -> int { P.colptr@[c + 1] - P.colptr@[c] }
 pub open spec fn mdn(P: CscMatrix<F>, c: int) -> int { if missing_diag(P, c) { 1int } else { 0int } }
@@ -2261,6 +2318,16 @@ pub proof fn lemma_bd_final(ms: Seq<&CscMatrix<F>>, st: Seq<usize>, K: CscMatrix
         lemma_bd_mono(ms, b + 1, nb); lemma_bd_mono(ms, b, b);
         assert(st[bd_cs(ms, b) + i] == bd_bs(ms, b) + ms[b].colptr@[i]);
     }
+}
+
+
+pub type CscF = CscMatrix<F>;
+// a block grid: at least one block, every block row equally long, heights constant along block rows, widths along block columns
+pub open spec fn grid_ok(g: Seq<&[&CscMatrix<F>]>) -> bool {
+    &&& g.len() >= 1 && g[0]@.len() >= 1
+    &&& forall|q: int| 0 <= q < g.len() ==> (#[trigger] g[q])@.len() == g[0]@.len()
+    &&& forall|q: int, p: int| 0 <= q < g.len() && 0 <= p < g[0]@.len() ==> (#[trigger] g[q]@[p]).m == g[q]@[0].m
+    &&& forall|q: int, p: int| 0 <= q < g.len() && 0 <= p < g[0]@.len() ==> (#[trigger] g[q]@[p]).n == g[0]@[p].n
 }
 
 // ---- fill_block: abstract cursor discipline
